@@ -393,3 +393,13 @@ pub assume_specification<T: PartialEq>[ <[T]>::contains ](s: &[T], x: &T) -> (r:
 pub assume_specification<T: Clone>[ <[T]>::to_vec ](s: &[T]) -> (r: Vec<T>)
     ensures r@ == s@,
 ;
+
+/// ASSUMED std contract: Option::map_or_else calls exactly one of the two closures
+pub assume_specification<T, U, D: FnOnce() -> U, F: FnOnce(T) -> U>[ Option::<T>::map_or_else ](o: Option<T>, d: D, f: F) -> (r: U)
+    requires
+        o is None ==> d.requires(()),
+        o is Some ==> f.requires((o->0,)),
+    ensures
+        o is None ==> d.ensures((), r),
+        o is Some ==> f.ensures((o->0,), r),
+;
